@@ -1,7 +1,8 @@
 """C15 — inference is invariant under likelihood-preserving rewrites and configurations.
 
 Correspondence: for random compositions of rewrites (permute lists; rename channels / samples / modifiers; add a zero-yield
-sample; add a null systematic; split a channel's bins into channels; merge two samples with identical modifiers; scale the
+sample; add a null systematic; split a channel's bins into channels; merge two samples with identical modifiers (performed as
+its inverse, split-sample: the generated model is the merged one); scale the
 signal by k) the rewritten specification is evaluated by the Lean declarative model D and by pyhf at mapped parameter
 points — log-densities agree (this ties the neutral-element theorems of C15 to the code); the rewrites themselves are
 performed in Python.
@@ -107,7 +108,34 @@ def rw_scale_signal(rng, spec):
     return s, {}, k
 
 
-REWRITES = {'permute': rw_permute, 'rename': rw_rename, 'zero-sample': rw_zero_sample, 'null-systematic': rw_null_systematic,
+def rw_split_sample(rng, spec):
+    """the inverse of "merge two samples that carry identical modifiers": one sample becomes two with the same modifier list;
+    yields and additive variations are divided bin by bin (fractions may be 0 or 1: an empty bin in one half), MC-statistical
+    uncertainties in quadrature; multiplicative modifiers are copied"""
+    s = copy.deepcopy(spec)
+    cand = [(c, sm) for c in s['channels'] for sm in c['samples'] if not any(m['type'] == 'shapesys' for m in sm['modifiers']) and not sm['name'].endswith('_h2')]
+    if not cand: return s, {}, 1.0
+    c, sm = rng.choice(cand)
+    fr = [rng.choice([0.0, 0.25, 0.5, 0.5, 1.0]) for _ in sm['data']]
+    phi = [rng.uniform(0.2, 1.3) for _ in sm['data']]
+    a = {'name': sm['name'], 'data': [f * x for f, x in zip(fr, sm['data'])], 'modifiers': []}
+    b = {'name': sm['name'] + '_h2', 'data': [x - f * x for f, x in zip(fr, sm['data'])], 'modifiers': []}
+    for m in sm['modifiers']:
+        ma, mb = copy.deepcopy(m), copy.deepcopy(m)
+        if m['type'] == 'histosys':
+            for key in ('lo_data', 'hi_data'):
+                ma['data'][key] = [f * x for f, x in zip(fr, m['data'][key])]
+                mb['data'][key] = [x - f * x for f, x in zip(fr, m['data'][key])]
+        elif m['type'] == 'staterror':
+            ma['data'] = [u * math.cos(t) for u, t in zip(m['data'], phi)]
+            mb['data'] = [u * math.sin(t) for u, t in zip(m['data'], phi)]
+        a['modifiers'].append(ma); b['modifiers'].append(mb)
+    c['samples'][c['samples'].index(sm)] = a
+    c['samples'].append(b)
+    return s, {}, 1.0
+
+
+REWRITES = {'split-sample': rw_split_sample, 'permute': rw_permute, 'rename': rw_rename, 'zero-sample': rw_zero_sample, 'null-systematic': rw_null_systematic,
             'split-channel': rw_split_channel, 'scale-signal': rw_scale_signal}
 
 
